@@ -31,6 +31,10 @@ def meshes():
     bv, bf = out["box"]
     out["tetrahedron+box"] = (np.vstack([tv, bv + [10.0, 0, 0]]), np.vstack([tf, bf + len(tv)]))
     out["two_tetrahedra"] = (np.vstack([tv, tv + [7.0, 1, 0]]), np.vstack([tf, tf + len(tv)]))
+    # two bodies touching at a corner: coincident but distinct vertices (indices 7 and 8 + 0)
+    out["boxes_touching_at_a_corner"] = (np.vstack([bv, bv + bv.max(axis=0) - bv.min(axis=0)]), np.vstack([bf, bf + len(bv)]))
+    # an unmerged seam: tetrahedron as a triangle soup (every face has its own vertices)
+    out["tetrahedron_soup"] = (tv[tf].reshape(-1, 3).copy(), np.arange(12).reshape(-1, 3))
     return out
 
 
@@ -170,7 +174,7 @@ def _w_holes(task):
             t.violation("fill_holes changes existing faces", case, {})
             continue
         # fill_holes documents an early exit for meshes with fewer than 3 faces
-        if small and simple and name != "open_box" and len(F1) >= 3:
+        if small and simple and name not in ("open_box", "tetrahedron_soup") and len(F1) >= 3:
             tp2 = Topo([tuple(f) for f in F2], len(V))
             if not tp2.watertight():
                 t.violation(f"fill_holes leaves a triangle / quad hole open [{name}; {cls}]", case, {"n_faces": len(F2)})
@@ -296,7 +300,7 @@ def main(run):
     NS = 16
     fam = meshes()
     for name, (V, F) in fam.items():
-        if name == "open_box":
+        if name in ("open_box", "tetrahedron_soup"):
             continue
         nf = len(F)
         comps = bodies(F, len(V))
